@@ -64,7 +64,7 @@ type HandshakeManager struct {
 	lightHouse             *LightHouse
 	outside                udp.Conn
 	config                 HandshakeConfig
-	OutboundHandshakeTimer *LockingTimerWheel[netip.Addr]
+	OutboundHandshakeTimer *LockingTimerWheel[handshakeTimer]
 	messageMetrics         *MessageMetrics
 	metricInitiated        metrics.Counter
 	metricTimedOut         metrics.Counter
@@ -73,6 +73,14 @@ type HandshakeManager struct {
 
 	// can be used to trigger outbound handshake for the given vpnIp
 	trigger chan netip.Addr
+}
+
+// handshakeTimer is an entry of the OutboundHandshakeTimer. The wheel has no way to cancel an entry, so one
+// can outlive the pending handshake it was armed for (the handshake completed, failed, or was restarted after
+// the wrong host answered). hh ties the entry to that handshake so it can never drive a later one to the same address.
+type handshakeTimer struct {
+	vpnAddr netip.Addr
+	hh      *HandshakeHostInfo
 }
 
 type HandshakeHostInfo struct {
@@ -124,7 +132,7 @@ func NewHandshakeManager(l *slog.Logger, mainHostMap *HostMap, lightHouse *Light
 		outside:                outside,
 		config:                 config,
 		trigger:                make(chan netip.Addr, config.triggerBuffer),
-		OutboundHandshakeTimer: NewLockingTimerWheel[netip.Addr](config.tryInterval, hsTimeout(config.retries, config.tryInterval)),
+		OutboundHandshakeTimer: NewLockingTimerWheel[handshakeTimer](config.tryInterval, hsTimeout(config.retries, config.tryInterval)),
 		messageMetrics:         config.messageMetrics,
 		metricInitiated:        metrics.GetOrRegisterCounter("handshake_manager.initiated", nil),
 		metricTimedOut:         metrics.GetOrRegisterCounter("handshake_manager.timed_out", nil),
@@ -196,17 +204,25 @@ func (hm *HandshakeManager) HandleIncoming(via ViaSender, packet []byte, h *head
 func (hm *HandshakeManager) NextOutboundHandshakeTimerTick(now time.Time) {
 	hm.OutboundHandshakeTimer.Advance(now)
 	for {
-		vpnIp, has := hm.OutboundHandshakeTimer.Purge()
+		t, has := hm.OutboundHandshakeTimer.Purge()
 		if !has {
 			break
 		}
-		hm.handleOutbound(vpnIp, false)
+		hm.handleOutboundFor(t.vpnAddr, t.hh, false)
 	}
 }
 
 func (hm *HandshakeManager) handleOutbound(vpnIp netip.Addr, lighthouseTriggered bool) {
+	hm.handleOutboundFor(vpnIp, nil, lighthouseTriggered)
+}
+
+// handleOutboundFor is handleOutbound for a timer entry: armedFor is the pending handshake the entry was armed
+// for. If that is no longer the pending handshake for vpnIp the entry is stale and must be ignored, otherwise it
+// would become a second, self re-arming timer chain for the newer handshake, which then retries in pairs and
+// gives up in about half the configured time. armedFor is nil for callers that are not a timer entry.
+func (hm *HandshakeManager) handleOutboundFor(vpnIp netip.Addr, armedFor *HandshakeHostInfo, lighthouseTriggered bool) {
 	hh := hm.queryVpnIp(vpnIp)
-	if hh == nil {
+	if hh == nil || (armedFor != nil && hh != armedFor) {
 		return
 	}
 	hh.Lock()
@@ -241,7 +257,10 @@ func (hm *HandshakeManager) handleOutbound(vpnIp netip.Addr, lighthouseTriggered
 	// Check if we have a handshake packet to transmit yet
 	if !hh.ready {
 		if !hm.buildStage0Packet(hh) {
-			hm.OutboundHandshakeTimer.Add(vpnIp, hm.config.tryInterval*time.Duration(hh.counter))
+			// A lighthouse triggered attempt is still in the timer wheel, re-adding it would start a second timer chain
+			if !lighthouseTriggered {
+				hm.OutboundHandshakeTimer.Add(handshakeTimer{vpnIp, hh}, hm.config.tryInterval*time.Duration(hh.counter))
+			}
 			return
 		}
 	}
@@ -333,7 +352,7 @@ func (hm *HandshakeManager) handleOutbound(vpnIp netip.Addr, lighthouseTriggered
 
 	// If a lighthouse triggered this attempt then we are still in the timer wheel and do not need to re-add
 	if !lighthouseTriggered {
-		hm.OutboundHandshakeTimer.Add(vpnIp, hm.config.tryInterval*time.Duration(hh.counter))
+		hm.OutboundHandshakeTimer.Add(handshakeTimer{vpnIp, hh}, hm.config.tryInterval*time.Duration(hh.counter))
 	}
 }
 
@@ -384,7 +403,7 @@ func (hm *HandshakeManager) StartHandshake(vpnAddr netip.Addr, cacheCb func(*Han
 	}
 	hm.vpnIps[vpnAddr] = hh
 	hm.metricInitiated.Inc(1)
-	hm.OutboundHandshakeTimer.Add(vpnAddr, hm.config.tryInterval)
+	hm.OutboundHandshakeTimer.Add(handshakeTimer{vpnAddr, hh}, hm.config.tryInterval)
 
 	if cacheCb != nil {
 		cacheCb(hh)
